@@ -24,6 +24,8 @@ import (
 //	null      an object member's value becomes null                  -> the attribute is absent
 //	retype    a value becomes a value of another JSON type           -> the value type is violated
 //	overflow  an integer becomes a number its designed kind cannot hold (or a fraction) -> value type violated
+//	extra     a designed object gains a member the design does not declare -> nothing changes: goa ignores
+//	          unknown members, and the OpenAPI document does not forbid them (no additionalProperties: false)
 //
 // The reference model applies the same edit to the payload value and says what must happen.
 
@@ -255,6 +257,22 @@ func planRewrite(t *verifsim.Tape, d *spec.Design, m *spec.Method, payload any, 
 		rw.throughMap = rw.throughMap || st.inMap
 	}
 	switch kind {
+	case "extra":
+		if !s.member || rw.throughMap || len(s.path) == 0 || s.path[len(s.path)-1].isIdx {
+			return nil, nil
+		}
+		ok := false
+		parent := s.path[:len(s.path)-1]
+		root = editJSON(root, parent, func(get func() any, set func(any), del func()) {
+			if obj, isObj := get().(map[string]any); isObj {
+				obj[[]string{"zzUndeclared", "x-note", "ZZ undeclared "}[t.Draw("extra-name", 3)]] = []any{json.Number("1"), "as discussed", true, nil, map[string]any{"a": "b"}}[t.Draw("extra-value", 5)]
+				ok = true
+			}
+		})
+		if !ok {
+			return nil, nil
+		}
+		rw.after = payload
 	case "drop", "null":
 		if !s.member {
 			return nil, nil
@@ -313,6 +331,36 @@ func judgeRewritten(o *engine.Outcome, w *world, d *spec.Design, design string, 
 	var er goahttp.ErrorResponse
 	body4xx := func() bool {
 		return ex.Status >= 400 && ex.Status <= 499 && json.Unmarshal(ex.RespBody, &er) == nil
+	}
+	if rw.kind == "extra" {
+		if c := classifyFailureAny(d, m, payload, nil, ex); c != "" {
+			o.Features["known_defect_class_in_the_way"]++
+			return
+		}
+		if prop == "C14" {
+			if c := loadContract(design); c.err == nil {
+				docErr, _, _, _, routed := c.docVerdictRequest(ex)
+				full := *ex
+				full.ReqWire = ex.ReqWireSent
+				if fullErr, _, _, _, ok := c.docVerdictRequest(&full); !ok || fullErr != nil {
+					o.Features["c14_drop_unjudged_document_rejects_full_request"]++
+					return
+				}
+				if routed && docErr == nil && len(w.invoked) != 1 {
+					o.Violate("contract_promises_invalid_request", "doc-accepts-undeclared-member:"+deep, "%s: the body carries an undeclared member next to %s and conforms to openapi3.json, the server refused it: status %d body %q\n  body %q", where, rw.where, ex.Status, clipS(string(ex.RespBody)), clipS(string(bodyOf(ex.ReqWire))))
+				}
+				o.Features["c14_requests_judged"]++
+			}
+			return
+		}
+		if len(w.invoked) != 1 {
+			o.Violate("valid_request_failed", "undeclared-member-refused:"+deep, "%s: a body with an undeclared member next to %s was not served: status %d body %q\n  body %q", where, rw.where, ex.Status, clipS(string(ex.RespBody)), clipS(string(bodyOf(ex.ReqWire))))
+			return
+		}
+		if diff := gen.Diff(expectedPayload(d, m, payload), w.invoked[0].got, ""); diff != "" && diffClassP(d, m, diff, payload) != "query-map-key-contains-closing-bracket" {
+			o.Violate("payload_delivery", "delivery-after-rewrite:extra:"+deep, "%s: body with an undeclared member next to %s: %s", where, rw.where, diff)
+		}
+		return
 	}
 	if rw.typeViolation {
 		if c := classifyFailureAny(d, m, payload, nil, ex); c != "" {
